@@ -55,6 +55,7 @@ func Install(st *State) {
 	cur = st
 	if st != nil {
 		st.now = st.Epoch
+		st.clockN = 0
 		if st.Stats == nil {
 			st.Stats = map[string]*SiteStat{}
 		}
